@@ -164,6 +164,20 @@ class Episode(object):
         if 'w' in op and op['w'] is not None and 'name' not in props:
             wc = self.wcfg(op['w'])
             props['name'] = name_variant(wc['name'], op.get('case'))
+        # not-a-number / infinity travel as markers (case files stay strict
+        # JSON) and become the float on the wire: Python's json accepts NaN
+        def _num(v):
+            if v == '@nan':
+                return float('nan')
+            if v == '@inf':
+                return float('inf')
+            return v
+        for key in ('graceful_timeout', 'nb'):
+            if key in props:
+                props[key] = _num(props[key])
+        if isinstance(props.get('options'), dict):
+            props['options'] = dict((k, _num(v))
+                                    for k, v in props['options'].items())
         for key in ('pid', 'childpid'):
             if isinstance(props.get(key), dict):
                 ref = props[key]
